@@ -244,3 +244,110 @@ func H_C20_esc(k, cont int) {
 	check(vsame(f2, f), "C20.idempotent")
 	vdigest(f)
 }
+
+// c20Wrap puts the lines of a block into a container spelled the way the formatter
+// itself spells it: kind 0 block quote ("> " on every line, ">" on blank ones), kind 1
+// bullet item ("- " then two spaces), kind 2 ordered item ("1. " then three spaces);
+// blank lines inside list items stay empty.
+func c20Wrap(lines [][]byte, kind int) [][]byte {
+	var out [][]byte
+	for i, l := range lines {
+		var p string
+		switch kind {
+		case 0:
+			p = "> "
+			if len(l) == 0 {
+				p = ">"
+			}
+		case 1:
+			p = "  "
+			if i == 0 {
+				p = "- "
+			}
+		default:
+			p = "   "
+			if i == 0 {
+				p = "1. "
+			}
+		}
+		if kind != 0 && len(l) == 0 {
+			p = ""
+		}
+		out = append(out, append([]byte(p), l...))
+	}
+	return out
+}
+
+// H_C20_nest(outer, inner): the nesting matrix of the formatter - every container
+// inside every container (block quote, bullet item, ordered item), holding one of
+// three contents chosen by the solver: two paragraphs separated by a blank line, a
+// fenced code block with a blank line inside, or a paragraph followed by a thematic
+// break. Letters are free. The blank lines inside are where indentation and quote
+// markers have to be written for lines that have no content of their own.
+func H_C20_nest(outer, inner int) {
+	a, b := nondetByte(), nondetByte()
+	assume(isL(a))
+	assume(isL(b))
+	var lines [][]byte
+	switch vconcrete(nondetInt(0, 2)) {
+	case 0:
+		lines = [][]byte{{a}, nil, {b}}
+	case 1:
+		lines = [][]byte{[]byte("```"), {a}, nil, {b}, []byte("```")}
+	default:
+		lines = [][]byte{{a}, nil, []byte("***"), nil, {b}}
+	}
+	lines = c20Wrap(c20Wrap(lines, inner), outer)
+	var d []byte
+	for _, l := range lines {
+		d = append(d, l...)
+		d = append(d, '\n')
+	}
+	f := formatDoc(cloneBytes(d))
+	h1 := normHTML(renderHTML(cloneBytes(d)))
+	h2 := normHTML(renderHTML(cloneBytes(f)))
+	if !vsame(h1, h2) {
+		vnote("doc=" + string(d))
+		vnote("formatted=" + string(f))
+	}
+	check(vsame(h2, h1), "C20.meaning-preserved")
+	f2 := formatDoc(cloneBytes(f))
+	check(vsame(f2, f), "C20.idempotent")
+	vdigest(f)
+}
+
+var c20FaultDocs = []string{
+	"a\n\n---\n\n\nb\n",
+	"> - a\n>   b\n",
+	"- > a\n  > b\n",
+	"1. a\n\n   b\n2. c\n",
+	"# h\n\n```go\nx\n\ny\n```\n\n[a]: /b \"t\"\n",
+	"a *b* [c](d) `e`\\\nf\n",
+}
+
+// H_C20_fault(i, K): fixed richer documents (blank lines before thematic breaks,
+// nested containers, code with blank lines, definitions, inline constructs) formatted
+// into a writer whose k-th call fails, k in 1..K a solver variable, both writer kinds:
+// exactly that error comes back and the writer is not called again.
+func H_C20_fault(i, K int) {
+	blocks, _ := commonmark.Parse([]byte(c20FaultDocs[i]))
+	k := vconcrete(nondetInt(1, K))
+	var fw *faultyWriter
+	var err error
+	if nondetBool() {
+		f := &faultyWriter{k: k}
+		fw = f
+		err = Format(f, blocks)
+	} else {
+		f := &faultyStrWriter{faultyWriter{k: k}}
+		fw = &f.faultyWriter
+		err = Format(f, blocks)
+	}
+	if fw.failed {
+		check(err == errWriter, "C20.returns-first-error")
+		check(fw.afterFail == 0, "C20.no-write-after-error")
+	} else {
+		check(err == nil, "C20.healthy-error")
+	}
+	vdigest(fw.b)
+}
